@@ -104,6 +104,8 @@ class SetupActor:
         for cid in chosen:
             ch = device.channels[cid]
             name = f"c{suffixes[k]}"
+            if k == 0 and profile.get("empty_name_p") and rng.random() < profile["empty_name_p"]:
+                name = ""  # a legal channel name that is falsy
             k += 1
             op = {"op": "declare_channel", "name": name, "channel_id": cid}
             if ch.addressing == "Local" and rng.random() < 0.7:
